@@ -30,6 +30,8 @@ import Driver.AchainChk
 import Vata.Proofs.LtsSim
 import Vata.Properties.C01
 import Vata.TrimCoded
+import Vata.CliPipeline
+import Vata.NfaCliPipeline
 import Vata.RenameCoded
 import Vata.InclDownStack
 import Vata.Proofs.InclDownStackStepsTop
@@ -571,6 +573,50 @@ def checkLts (args res : List String) : Except String (Findings × String) := do
 /-- `cliop <repr> <op> <A> [<B>|<ranks>]`: one command of the real `vata` binary (cli/vata.cc, cli/operations.hh: loading through state
     dictionaries, `-p` / `-s` pruning, the union / product dictionaries of util.cc, dumping by names) judged by the proved deciders.
     The result automaton was parsed back from the printed Timbuk text by the Python side (`R=`), or `out=E|N|C|T`. -/
+def unhex? (s : String) : Option String :=
+  let rec go : List Char → List Char → Option (List Char)
+    | [], acc => some acc.reverse
+    | [_], _ => none
+    | a :: b :: rest, acc =>
+      let d (c : Char) : Option Nat := if c.isDigit then some (c.toNat - 48) else if 'a' ≤ c && c ≤ 'f' then some (c.toNat - 87) else none
+      match d a, d b with
+      | some x, some y => go rest (Char.ofNat (16 * x + y) :: acc)
+      | _, _ => none
+  (go s.toList []).map String.ofList
+
+/-- name-for-name comparison of what `vata union | isect` printed with the model of the command line
+(`Vata/CliPipeline.lean`: load with fresh state dictionaries and one alphabet → `Union` / `Intersection` → dictionary of the result with the
+repaired product names → dump; `C02_cli_union_lang`, `C02_cli_isect_lang`, `C02_cli_product_names_injective`; word automata:
+`Vata/NfaCliPipeline.lean`, `C10_cli_union_lang`, `C10_cli_isect_lang`).  Both texts are parsed by the model parser and compared as sets of
+final-state names and of rules over names; when a product name needed a prime (which of two colliding states gets it depends on the hash
+order) only the counts are compared. -/
+def cliTextCompare (repr op : String) (res : List String) : Except String (Findings × String) := do
+  match (kv res "txa") >>= unhex?, (kv res "txb") >>= unhex?, (kv res "txo") >>= unhex? with
+  | some ta, some tb, some to_ =>
+    let model := match repr, op with
+      | "expl", "union" => some (Vata.CliPipe.cliUnionText ta tb)
+      | "expl", "isect" => some (Vata.CliPipe.cliIsectText ta tb)
+      | "expl_fa", "union" => some (Vata.NfaCli.cliNfaUnionText ta tb)
+      | "expl_fa", "isect" => some (Vata.NfaCli.cliNfaIsectText ta tb)
+      | _, _ => none
+    match model with
+    | none => pure ([], "")
+    | some (.error e) => pure ([s!"mismatch model of vata {repr} {op} fails ({e}) where the binary printed an automaton"], " clitext=err")
+    | some (.ok tm) =>
+      match parseTimbuk tm, parseTimbuk to_ with
+      | .ok dm, .ok di =>
+        let sameSet {α} [BEq α] (a b : List α) : Bool := a.all (fun x => b.contains x) && b.all (fun x => a.contains x)
+        let primed := (dm.final ++ dm.trans.map (·.2.2) ++ di.final ++ di.trans.map (·.2.2)).any (fun n => n.endsWith "'")
+        if primed then
+          if dm.final.eraseDups.length != di.final.eraseDups.length || dm.trans.eraseDups.length != di.trans.eraseDups.length then
+            pure ([s!"mismatch vata {repr} {op}: printed automaton has other sizes than the model's (primed names)"], " clitext=primed")
+          else pure ([], " clitext=primed")
+        else if !(sameSet dm.final di.final && sameSet dm.trans di.trans) then
+          pure ([s!"mismatch vata {repr} {op}: the printed text differs from the model's, name for name: model finals {dm.final} rules {dm.trans.length}, binary finals {di.final} rules {di.trans.length}"], " clitext=1")
+        else pure ([], " clitext=1")
+      | _, _ => pure ([s!"mismatch vata {repr} {op}: the model parser rejects the printed text or the model's text"], " clitext=err")
+  | _, _, _ => pure ([], "")
+
 def checkCliOp (args res : List String) : Except String (Findings × String) := do
   let repr ← getE args[0]? "bad repr"
   let op0 ← getE args[1]? "bad op"
@@ -629,6 +675,10 @@ def checkCliOp (args res : List String) : Except String (Findings × String) := 
     let B ← getE (args[3]? >>= parseTA?) "bad B"
     if !(← getE (isIsectM R A B FUEL) "fuel(isect)") then f := f ++ [s!"violation vata {repr} isect: language is not the intersection"]
   | _ => throw s!"unknown cli op {op}"
+  let mut tag := tag
+  if op0 == "union" || op0 == "isect" then
+    let (f2, t2) ← cliTextCompare repr op0 res
+    f := f ++ f2; tag := tag ++ t2
   pure (f, tag ++ s!" emptyA={bchar eA} emptyR={bchar (← emptyE R)}")
 
 /-- utility classes under the algorithms (sorted vectors, antichain containers, relations …): their models are part of the
